@@ -2,7 +2,10 @@
 C04, region ownership of relocation entries over ALL programs (Lemmas/RelInv.lean, Lemmas/RelStep.lean).
 
  * `relocs_own_their_regions`  for every program of assembling operations, on every architecture and base: every RelocEntry's
-      region `[source offset, + region size)` lies inside its section's buffer and contains the value word
+      region `[source offset, + region size)` lies inside its section's buffer, contains the value word, its value word still has
+      zero field bits (nothing has written there: neither later emissions nor any bind / resolve patch), its format is one of the
+      formats proved exact in C17, no entry lives in the `.addrtab` section, address-table entries have their two opcode bytes inside
+      the region
       (`value offset + value size ≤ region size`, so `relocate_to_base`'s bounds test never fails and `write_offset` - and the
       two opcode bytes the address-table rewrite touches - stay inside the entry's own instruction); regions of distinct
       entries are pairwise disjoint; and every region is disjoint from the field of every fixup reference (so neither
@@ -15,13 +18,13 @@ write (C03 `patched_field_designates`, C17) this is the frame argument for reloc
 "after relocate B every entry's field designates its target" (the fold over the entry list with these disjointness facts, incl.
 the address-table section); that composition is evaluated by the monitor on every explored program x base.
 -/
-import AsmjitVerif.Lemmas.RelStep
+import AsmjitVerif.Lemmas.RelEntry
 import AsmjitVerif.Props.C03E
 namespace AsmjitVerif.CodeHolder
 open AsmjitVerif.Offset
 
 theorem rinv_init (arch : Arch) (base : BitVec 64) : RInv (State.init arch base) := by
-  refine ⟨?_, ?_, ?_⟩ <;> simp [State.init]
+  refine ⟨?_, ?_, ?_, ?_, ?_⟩ <;> simp [State.init]
 
 /-- **region ownership (assembling phase).** -/
 theorem relocs_own_their_regions (arch : Arch) (base : BitVec 64) (ops : List Op) (hops : ∀ op ∈ ops, op.early = true) :
@@ -41,7 +44,14 @@ theorem grow_resolve (s : State) (h : Inv s) : Grow s (resolve s).1 := by
       rw [hl] at hk; cases hk
       exact ⟨l, lsec, loff, hl, hb, h.fmts _ hg⟩
     have LS := resolveLoop_spec s.labels s.fixups { secs := s.secs, relocs := s.relocs, kept := [], resolved := 0, err := .ok } hrl
-    exact ⟨LenExt.of_shape LS.shape, ⟨[], by simp, by simp, fun _ hx => by cases hx⟩, ⟨[], by simp, fun _ hx => by cases hx⟩, .inr rfl⟩
+    refine ⟨LenExt.of_shape LS.shape, ?_, ⟨[], by simp, by simp, fun _ hx => by cases hx⟩, ⟨[], by simp, fun _ hx => by cases hx⟩, .inr rfl,
+      .inl rfl, id⟩
+    intro g _ hD
+    apply LS.frame
+    intro f hf
+    obtain ⟨l, _, hgf⟩ := h.glob.1 f hf
+    have hd : D g (f.toG l) := hD _ hgf
+    exact hd
 
 /-- **region ownership in the state `relocate_to_base` starts from** -/
 theorem relocs_own_their_regions_final (arch : Arch) (base : BitVec 64) (ops : List Op) (hops : ∀ op ∈ ops, op.early = true) :
@@ -53,6 +63,28 @@ theorem relocs_own_their_regions_final (arch : Arch) (base : BitVec 64) (ops : L
     rw [run_append]; simp [run, step]
   rw [e]
   exact rinv_grow hr1 hi1 (grow_resolve _ hi1)
+
+/-- **reloc_abs_correct / reloc_rel_correct, one entry at a time, for every program and every base.**
+Take any program of the menu followed by `flatten; resolve`, any base `B`, and any relocation entry of the resulting state
+whose value is 1/2/4 bytes wide and that is not routed through the address table. If the loop body of
+`relocate_to_base(B)` succeeds on it, the value word decodes (Spec/Offset.lean) to exactly `relocValue`:
+`B + target section offset + payload` for RelToAbs (embedded label addresses, 32-bit absolute operands),
+`payload − (B + section offset + source offset + region size)` for AbsToRel / X64AddressEntry (so by `abs_to_rel_reaches`
+the CPU's end-of-instruction + rel32 is the payload; range tested in 64-bit mode, wrapped in 32-bit mode), the expression
+value for label deltas.  The preconditions (zero field, exact format, bounds) come from `relocs_own_their_regions_final`.
+Not yet composed over the whole entry list (that needs the per-step frame incl. the address-table section), nor for 8-byte
+values and the table form. -/
+theorem reloc_entry_correct (arch : Arch) (base0 : BitVec 64) (ops : List Op) (hops : ∀ op ∈ ops, op.early = true)
+    (B : BitVec 64) (re : Reloc) (hre : re ∈ (run (State.init arch base0) (ops ++ [.flatten, .resolve])).relocs)
+    (h8 : re.fmt.valueSize ≠ 8) (v : BitVec 64)
+    (hv : relocValue (run (State.init arch base0) (ops ++ [.flatten, .resolve])) B
+            (run (State.init arch base0) (ops ++ [.flatten, .resolve])).secs re = some v)
+    (acc' : RelocAcc)
+    (hok : relocStep (run (State.init arch base0) (ops ++ [.flatten, .resolve])) B
+            { secs := (run (State.init arch base0) (ops ++ [.flatten, .resolve])).secs,
+              addrTab := (run (State.init arch base0) (ops ++ [.flatten, .resolve])).addrTab, nSlots := 0 } re = .ok acc') :
+    ∃ new, field acc'.secs re.rgn.val = some new ∧ decode32 re.fmt (BitVec.ofNat 32 new) = v :=
+  reloc_entry_exact _ (relocs_own_their_regions_final arch base0 ops hops) B re hre h8 v hv acc' hok
 
 /-- non-vacuity: three relocation entries (embedded label address, absolute call through the table, 8-byte label delta)
 and one fixup reference; regions [0,8), [8,14), [19,27) of .text -/
